@@ -14,6 +14,12 @@ code -> spec: harness/c08 runs seeded random histories (19 streams of all kinds/
               provider, 6 attribute sets, 50-200 steps, 1-3 callbacks with registration churn, reused /
               fresh ResourceMetrics, int64 / float64, default / view aggregations, tiny exponential
               MaxSize) on the same two readers.
+concurrency : between two collection points the measurements of a cycle may come from 2-8 goroutines at once
+              (spin barrier storms on one fresh attribute set, mixed traffic): the cycle is a multiset, gauges are
+              judged for membership; user-supplied exemplar reservoirs (view) are natural gates: the provider holds
+              the first measurement of a set while a second one is started (twin), Reservoir.Collect holds a reader
+              inside an aggregate's collection while a measurement is started (Mid line: the measurement belongs to
+              that reader's cycle k or k+1, exact again at the quiescent point k+1).  Collections only at quiescence.
 extensions  : wide exponential value domain (value = sign x 2^e over +-300 octaves, tiny MaxSize: the two readers
               re-scale at different moments, every measurement ORDER explored); overlapping collections of one
               reader (second goroutine collects while the first is held in a gate callback; TOver accepts either
@@ -187,7 +193,9 @@ def run(ctx):
     par = max(2, min(6, (os.cpu_count() or 4) // 3))
     if os.environ.get("VERIF_TLC_WORKERS"):
         par = max(1, min(par, int(os.environ["VERIF_TLC_WORKERS"])))
-    overlap = 120 if thorough else 24  # overlapping collections per configuration (each waits ~15 ms)
+    # gated executions per configuration and kind (overlapping collections, twin first measurements,
+    # measurement during a collection); each waits ~15 ms for the operation that must not get through
+    overlap = 90 if thorough else 20
 
     def add_counters(res, prefix):
         for k, v in res["counters"].items():
@@ -218,7 +226,7 @@ def run(ctx):
         resf = os.path.join(ctx.work, "replay-%s.json" % c["name"])
         hcfg = dict(c["model"], **c["extra"])
         ctx.run([binp, "replay", "-edges", r["edges_file"], "-cfg", json.dumps(hcfg), "-out", trace, "-res", resf,
-                 "-sample", str(k), "-overlap", str(overlap)], timeout=2400)
+                 "-sample", str(k), "-overlap", str(overlap), "-twin", str(overlap), "-mid", str(overlap)], timeout=2400)
         r["want_executed"] = sum(1 for e in range(1, (r.get("edges") or 0) + 1) if k <= 1 or (e + ctx.seed) % k == 0)
         os.remove(r["edges_file"])  # (tlc.out of the run keeps the EDGE lines)
         return c, r, trace, json.load(open(resf)), cov
@@ -311,7 +319,9 @@ def run(ctx):
             "random_expo_negative_scale_points", "replay_overlapped_pairs", "random_overlapped_pairs",
             "replay_deferred_projections", "replay_wide_cumulative_rescaled_between_cycles",
             "replay_wide_delta_and_cumulative_at_different_scales", "random_wide_bursts",
-            "random_wide_cumulative_rescaled_between_cycles"]
+            "random_wide_cumulative_rescaled_between_cycles", "replay_twin_first_measurements",
+            "replay_mid_collection_measurements", "random_twin_first_measurements", "random_mid_collection_measurements",
+            "random_concurrent_batches"]
     for k in need:
         if not counters.get(k):
             ctx.note_inconclusive("vacuity: counter %s is zero" % k)
